@@ -264,7 +264,7 @@ def formula_sweep(shard, rec, ssj, contracts):
     every anomaly is turned into a witness table and judged by the boundary oracle."""
     from py_stringsimjoin.filter import filter_utils as fu
     import py_stringsimjoin.filter.position_filter as pf
-    ths = gen.threshold_pool('neighbours')
+    ths = gen.threshold_pool('basic' if rec.tier == 'quick' else 'neighbours')
     rng = random.Random(shard['seed'])
     ths = sorted(set(ths + [gen.random_threshold(rng) for _ in range(60)]))
     nmax = shard['nmax']
